@@ -59,7 +59,7 @@ class RegexReader:
         return depths[1:]
 
     def _begins_with_parenthesis_components(self):
-        return self._components[0] == "("
+        return bool(self._components) and self._components[0] == "("
 
     def _setup_precedence_when_not_trivial(self):
         self._set_end_first_group_in_components()
